@@ -824,17 +824,6 @@ impl<'a> Visitor<'a> {
             };
         }
 
-        if path_buf.extension() == Some(OsStr::new("scss"))
-            || path_buf.extension() == Some(OsStr::new("sass"))
-            || path_buf.extension() == Some(OsStr::new("css"))
-        {
-            let extension = path_buf.extension().unwrap();
-            try_path!(path_buf.with_extension(format!("import.{}", extension.to_str().unwrap())));
-            try_path!(path_buf);
-            // todo: consider load paths
-            return None;
-        }
-
         // the extension is appended to the whole name: `foo.bar` is looked up as
         // `foo.bar.scss`, not as `foo.scss`
         fn with_suffix(path: &Path, suffix: &str) -> PathBuf {
@@ -856,20 +845,33 @@ impl<'a> Visitor<'a> {
             };
         }
 
-        try_path_with_extensions!(path_buf.clone());
+        // a URL that already ends in a Sass/CSS extension is only tried literally (and as a
+        // partial); anything else gets the extensions appended and may name a directory
+        let explicit_extension = path
+            .extension()
+            .and_then(OsStr::to_str)
+            .filter(|ext| matches!(*ext, "scss" | "sass" | "css"));
 
-        if self.options.fs.is_dir(&path_buf) {
-            try_path_with_extensions!(path_buf.join("index"));
+        macro_rules! try_location {
+            ($path:expr) => {
+                let path_buf: PathBuf = $path;
+                if let Some(extension) = explicit_extension {
+                    try_path!(path_buf.with_extension(format!("import.{}", extension)));
+                    try_path!(path_buf);
+                } else {
+                    try_path_with_extensions!(path_buf.clone());
+
+                    if self.options.fs.is_dir(&path_buf) {
+                        try_path_with_extensions!(path_buf.join("index"));
+                    }
+                }
+            };
         }
 
+        try_location!(path_buf);
+
         for load_path in &self.options.load_paths {
-            let path_buf = load_path.join(path);
-
-            try_path_with_extensions!(&path_buf);
-
-            if self.options.fs.is_dir(&path_buf) {
-                try_path_with_extensions!(path_buf.join("index"));
-            }
+            try_location!(load_path.join(path));
         }
 
         None
